@@ -7,6 +7,7 @@ Databases are lists of applied segments as in SnapFSDrv.
   wfull <h> <db> <wals|-> <ok|short|badcrc>  → ok | err <kind>
   winc <h> <wals>                         → ok | err <kind>
   close <h> | closeold <h>                → ok | err <kind>     (close: with the full-needed re-check)
+  closerf <h>                             → err <kind>   (Close whose final rename fails)
   cancel <h>                              → ok
   setfull                                 → ok
   reap <newName>                          → ok | err <kind>
@@ -71,6 +72,10 @@ def step (d : DState) (line : String) : DState × String :=
   | ["closeold", h] =>
     match h.toNat? with
     | some h => let (s', o) := close false d.s h; ({ s := s' }, o)
+    | none => (d, "bad-op")
+  | ["closerf", h] =>
+    match h.toNat? with
+    | some h => let (s', o) := closeRenameFails d.s h; ({ s := s' }, o)
     | none => (d, "bad-op")
   | ["cancel", h] =>
     match h.toNat? with
